@@ -96,6 +96,26 @@ impl NameCompressor {
         }
     }
 
+    /// Forget every name recorded at or beyond position `len`.
+    ///
+    /// This must be called when message contents beyond `len` are discarded
+    /// (a failed or reverted write, truncation): entries pointing there no
+    /// longer correspond to the message.
+    pub fn truncate(&mut self, len: usize) {
+        for i in 0..32 {
+            if self.len[i] != 0 && self.pos[i] as usize >= len {
+                // Back to the uninitialized state. A discarded entry cannot
+                // be the parent of a surviving one: children are always
+                // recorded after (and so beyond) their parents.
+                self.last_use[i] = 0;
+                self.pos[i] = 0;
+                self.len[i] = 0;
+                self.parent[i] = 0;
+                self.hash[i] = 0;
+            }
+        }
+    }
+
     /// Compress a [`RevName`].
     ///
     /// This is a low-level function; use [`BuildInMessage::build_in_message()`] to
